@@ -532,7 +532,11 @@ class Engine:
         i = z3.Int(fresh_name("k"))
         self.havoc_locals(node, head, spec, i)
         if spec.havoc:
-            spec.havoc(self, head)
+            import inspect
+            if len(inspect.signature(spec.havoc).parameters) >= 3:
+                spec.havoc(self, head, i)  # heap havoc that depends on the loop index
+            else:
+                spec.havoc(self, head)
         head.assume(i >= lo)
         for nm, g in spec.invariant(self, head, i):
             head.assume(g)
